@@ -48,6 +48,10 @@ pub struct WireCase {
     /// complete must be delivered without waiting for bytes that never come
     #[serde(default)]
     pub silent: bool,
+    /// every response is obtained through the `command()` / `command_list()` helpers (send and
+    /// receive in one call); they report a clean end of stream as unexpected EOF
+    #[serde(default)]
+    pub via_command: bool,
 }
 
 pub struct Material {
@@ -106,6 +110,7 @@ fn run_case(case: &WireCase, m: &Material, extra: usize) -> Outcome {
         error_at: case.error_at.clone(),
         send_between: case.send_between,
         silent: case.silent,
+        via_command: case.via_command,
     })
 }
 
@@ -600,6 +605,9 @@ fn eval_c03(case: &WireCase) -> Eval {
         }
         let expected_end = if case.silent {
             Terminal::Starved
+        } else if case.via_command {
+            // the helpers have no way to say "closed cleanly": no response is an error for them
+            Terminal::UnexpectedEof
         } else {
             Terminal::CleanEof
         };
@@ -653,6 +661,11 @@ impl Check for C03 {
         }
         // a third of the run indexes write a command before every receive (pipelining caller)
         let send_between = rng.chance(1, 3);
+        // a sixth obtains every response through the `command()` / `command_list()` helpers
+        let via_command = Rng::new(mix(seed, "C03.via_command", index)).chance(1, 6);
+        if via_command {
+            ctx.counters.bump("streams_read_through_command_helpers");
+        }
         let class = gen::gen_class_with_huge(&mut rng);
         let greeting = if rng.chance(1, 8) {
             gen::valid_greeting(&gen::gen_version(&mut rng))
@@ -739,8 +752,9 @@ impl Check for C03 {
                     },
                     flavour: fl,
                     error_at: None,
-                    send_between: send_between,
+                    send_between: send_between && !via_command,
                     silent,
+                    via_command,
                 };
                 ctx.about_to_eval(&case);
                 let ev = eval_c03(&case);
@@ -1125,6 +1139,7 @@ impl Check for C10 {
                     error_at: None,
                     send_between: false,
                     silent: false,
+                    via_command: false,
                     };
                     ctx.about_to_eval(&case);
                     let ev = eval_c10(&case);
@@ -1154,6 +1169,7 @@ impl Check for C10 {
                     error_at: None,
                     send_between: false,
                     silent: false,
+                    via_command: false,
                 };
                 // how many reads does the undisturbed run take?
                 let reads = run_case(&case, &case.materialize(), 0).reads;
@@ -1344,6 +1360,12 @@ impl Check for C02 {
         }
         // a third of the run indexes write a command before every receive (pipelining caller)
         let send_between = rng.chance(1, 3);
+        // a sixth obtains every response through the `command()` / `command_list()` helpers
+        // (reference and variants alike)
+        let via_command = Rng::new(mix(seed, "C02.via_command", index)).chance(1, 6);
+        if via_command {
+            ctx.counters.bump("streams_read_through_command_helpers");
+        }
         let class = gen::gen_class_with_huge(&mut rng);
         let greeting = gen::default_greeting();
         // stream kinds: well-formed, truncated, corrupted, raw soup
@@ -1401,8 +1423,9 @@ impl Check for C02 {
             pending: vec![0],
             flavour: Flavour::Blocking,
             error_at: None,
-            send_between,
+            send_between: send_between && !via_command,
             silent,
+            via_command,
         };
         ctx.about_to_eval(&base);
         let m = base.materialize();
@@ -1786,6 +1809,7 @@ impl Check for C09 {
                 error_at: None,
                     send_between: false,
                     silent: false,
+                    via_command: false,
             };
             let m = probe.materialize();
             let glen = m.barrier.unwrap_or(m.stream.len());
@@ -1815,6 +1839,7 @@ impl Check for C09 {
                         error_at: None,
                         send_between,
                         silent,
+                        via_command: false,
                     };
                     ctx.about_to_eval(&case);
                     let ev = eval_c09(&case);
@@ -2078,6 +2103,7 @@ pub fn run_greeting_index<C: Clone + serde::Serialize>(
                 error_at: None,
                 send_between: false,
                 silent,
+                via_command: false,
             };
             ctx.about_to_eval(&wrap(case.clone()));
             let ev = eval_greeting(&case);
